@@ -60,7 +60,8 @@ DELTAS = [0, 1, 2, 3, 5, 0.125, 0.5, 0.875, 1.5, 2.25, 2.5, 0.1, 0.3, 1.7,
 
 def dec_delta(d):
   return Fraction(d) if isinstance(d, str) else d
-CONTAINERS = ["list", "tuple", "gen", "stream", "src", "seqproto", "submix"]
+CONTAINERS = ["list", "tuple", "gen", "stream", "src", "seqproto", "submix",
+              "hub1", "hub2", "substream", "deque", "iter"]
 
 
 class SeqProto(object):
@@ -368,6 +369,28 @@ class C16(Property):
       return self.ls.Stream(list(values))
     if box == "seqproto":
       return SeqProto(values)
+    if box == "hub1":           # a tee hub object with a single use
+      return self.ls.thub(list(values), 1)
+    if box == "hub2":
+      # a hub object with two uses: the mixer takes one, the other is kept
+      # and must still yield the whole sequence at the end of the run
+      hub = self.ls.thub(list(values), 2)
+      self._hub_others.append((self.ls.Stream(hub), list(values)))
+      return hub
+    if box == "substream":
+      # a Stream subclass whose __iter__ decides what is played (as the
+      # ChangeableStream of examples/keyboard.py); its raw data differs
+      vals = list(values)
+
+      class Played(self.ls.Stream):
+        def __iter__(self):
+          return iter(vals)
+      return Played([987654321] * (len(vals) + 2))
+    if box == "deque":
+      import collections
+      return collections.deque(values)
+    if box == "iter":
+      return iter(list(values))
     if box == "submix":
       # another Streamix (with this one event) played as the event
       sub = self.ls.Streamix(zero=0)
@@ -385,6 +408,7 @@ class C16(Property):
       raise _Mismatch("construct", "Streamix(keep=%r, zero=%r) raised %r"
                       % (wl["keep"], zero, exc))
     add_fn = lambda acc, item: acc + item
+    self._hub_others = []
     # a second mixer filled before this one is used and kept alive: state
     # shared between instances shows up inside this very run
     decoy = self.ls.Streamix(zero=0)
@@ -594,6 +618,19 @@ class C16(Property):
                             "samples although no event is playing or pending"
                             % produced)
           slack -= max(1, produced - before)
+    for other, vals in self._hub_others:
+      try:
+        ogot = guarded("other hub use", lambda: list(other))
+      except _Mismatch:
+        raise
+      except Exception as exc:
+        raise _Mismatch("hub-event", "the other use of a hub that was also "
+                        "given to add() raised %r" % (exc,))
+      if [snap(kind, g) for g in ogot] != [snap(kind, v) for v in vals]:
+        raise _Mismatch("hub-event", "the other use of a hub that was also "
+                        "given to add() yields %r instead of %r"
+                        % (ogot, vals))
+      res.counters["probe.event-is-a-shared-hub"] += 1
     try:
       dgot = guarded("decoy", lambda: decoy.take(5))
     except _Mismatch:
